@@ -54,3 +54,8 @@ def leaving_worker(ptable, me):
     # a worker that has announced its exit: waits for its exit lock (with loky's 30 s timeout), then ends
     ptable.exit_acquire(me)
     ptable.die(me)
+
+
+def reuser(RX, obs, mw, cfg):
+    ex, reused = RX.get_reusable_executor(max_workers=mw, timeout=cfg)
+    obs.got(ex, reused)
